@@ -31,7 +31,7 @@ def run(ctx):
                                                    maxrows=(12 if i % 2 else 30), bias=("grow" if i % 2 == 0 else ""))
                                               for i, sd in enumerate(seeds)])
         if not ctx.quick():
-            storelib.design_only(ctx, "big", dict(MaxStmts=7, MaxRows=3, MaxFlush=1, MaxEvict=1, Vals="{1, 2}"), cov, timeout=600)
+            storelib.design_only(ctx, "big", dict(MaxStmts=7, MaxRows=3, MaxFlush=1, MaxEvict=1, Vals="{1, 2}"), cov, timeout=300)
     finally:
         pool.close()
     drift = sum(c["drift"] for c in cov["configs"])
